@@ -1208,8 +1208,35 @@ fn results_array_from_scalars(scalars: &[ScalarValue], num_rows: usize) -> Resul
         return Ok(Arc::new(arrow::array::NullArray::new(num_rows)));
     }
 
-    // All scalars should have the same type
-    match &scalars[0] {
+    // All non-NULL scalars have the same type: take it from the first non-NULL
+    // result (the first row's result may well be NULL - no partner row).
+    let first_typed = scalars
+        .iter()
+        .find(|s| !matches!(s, ScalarValue::Null))
+        .unwrap_or(&scalars[0]);
+    match first_typed {
+        ScalarValue::Int32(_) => {
+            use arrow::array::Int32Array;
+            let values: Vec<Option<i32>> = scalars
+                .iter()
+                .map(|s| match s {
+                    ScalarValue::Int32(v) => Some(*v),
+                    _ => None,
+                })
+                .collect();
+            Ok(Arc::new(Int32Array::from(values)))
+        }
+        ScalarValue::Date32(_) => {
+            use arrow::array::Date32Array;
+            let values: Vec<Option<i32>> = scalars
+                .iter()
+                .map(|s| match s {
+                    ScalarValue::Date32(v) => Some(*v),
+                    _ => None,
+                })
+                .collect();
+            Ok(Arc::new(Date32Array::from(values)))
+        }
         ScalarValue::Int64(_) => {
             use arrow::array::Int64Array;
             let values: Vec<Option<i64>> = scalars
